@@ -231,6 +231,7 @@ static void run_pass(struct op *ops, int nops, unsigned char fill, struct res *r
       cur_al = s->al; ncur = 0;
       char *txt = strdup(o->text);
       int dep = strchr(o->flags, 'd') != NULL;   /* 'd': through the deprecated alias of the entry point (same contract) */
+      if (strchr(o->flags, 'c')) close(0);       /* 'c': descriptor 0 is free (a process started with stdin closed): open() will return 0 */
       int *dp = strchr(o->flags, 'z') ? NULL : &x->dest;   /* 'z': the caller passes no place for the count */
       if (o->kind == 'N') { if (dep) LIB(x->ret = assemble_string_counting_chunks(s->al, txt, o->a, dp)); else LIB(x->ret = asm_assemble_string_counting_chunks(s->al, txt, o->a, dp)); }
       else if (o->kind == 'A') { if (dep) LIB(x->ret = assemble_str(s->al, txt)); else LIB(x->ret = asm_assemble_str(s->al, txt)); }
